@@ -4,7 +4,7 @@ import pk, src
 from common import jhash, first_diff
 from pkgrun import *
 
-PROF = profile(no_textbox_in_link=True, p_table=0.3, p_span=0.3, p_vmerge=0.3, p_rpr=0.6, p_style=0.4, p_list=0.35, p_comments=0.9, p_comment_marker=0.12, straddle_ranges=0.4, p_core=0.7, p_textbox=0.06, p_same_image_name=0.5, p_header=0.7)
+PROF = profile(no_textbox_in_link=True, p_table=0.3, p_span=0.3, p_vmerge=0.3, p_rpr=0.6, p_style=0.4, p_list=0.35, p_comments=0.9, p_comment_marker=0.12, straddle_ranges=0.4, p_core=0.7, p_textbox=0.06, p_same_image_name=0.5, p_header=0.7, p_cell_nopar=0.08)
 RULE = ('packages from the union of the nesting / table / formatting profiles; all pairs of option settings: html on vs off (same nesting '
         'skeleton, paragraph count, lineage, styles, list positions, images, core properties, number of comments), duplicate_merged_cells on '
         'vs off (records that are not copies carry the same runs in the same order; no merged cell at all => identical output; ragged tables with gridSpan and vMerge in any combination, cells holding paragraphs only: same cells per row and every non-copy record at the same address), image folder '
@@ -88,6 +88,7 @@ def one(ctx, data, meta=None):
                             ctx.fail('switching html changes a string other than by adding tags and escapes', case_payload(data, dup=dup, attribute=v, paragraph_index=k),
                                      {'html_on': ''.join(y['runs']), 'projected': proj, 'html_off': ''.join(x['runs'])},
                                      features=['text-box-inside-hyperlink'] if tb else []); good = False; break
+        continued = {(path, q.k) for path, root in parts.items() for q in src.paragraphs(root, path) if q.in_continuation}
         for html in (False, True):
             a, b = noncopy_runs(obs[(html, True)][who]), noncopy_runs(obs[(html, False)][who])
             if a is None or b is None: continue
@@ -104,6 +105,10 @@ def one(ctx, data, meta=None):
                     for e, runs in a[v]:
                         if e in bm and bm[e] != runs: bad = (v, e, runs, bm[e])
                     if not has_merge and [e for e, _ in a[v]] != [e for e, _ in b[v]]: bad = (v, 'order/elements', None, None)
+                    # a paragraph that is not inside a vertically continued cell is not replaced by a copy: it is there under both settings
+                    am = {e for e, _ in a[v]}
+                    for e, runs in b[v]:
+                        if e not in am and e not in continued and who == 0: bad = (v, e, None, runs)
                 if bad:
                     if who == 0: ctx.fail('switching duplicate_merged_cells changes a paragraph that is not a merged-cell copy', case, {'attribute': bad[0], 'element': bad[1], 'dup_true': bad[2], 'dup_false': bad[3]})
                     else: ctx.diff('relation duplicate-invariance holds on the model', case, 'holds?', str(bad)[:300])
